@@ -22,7 +22,7 @@ ID = "C19"
 LEVEL = "model_checking"
 RULE = (
     "full product expected_input(3) x approximator{None,default,cc3d,scipy} x matcher{None, thr IoU .5, thr Dice .3 many-to-one, thr ASSD 1.0, merge IoU .5, merge Dice .7, merge ASSD 2.0} x handler{None, asymmetric A, asymmetric B with "
-    "empty_list_std ZERO, default tables with empty_list_std ONE} x groups{None, plain, plain+merge, plain+single} x instance metrics(3) x global metrics(3) x decision{none, IoU .5, Dice 1/3} x flags (quick: 2 joint settings, thorough: 2^3): "
+    "empty_list_std ZERO, default tables with empty_list_std ONE} x groups{None, plain, plain+merge, plain+single, a group literally named 'Ungrouped' + a merge group} x instance metrics(3) x global metrics(3) x decision{none, IoU .5, Dice 1/3} x flags (quick: 2 joint settings, thorough: 2^3): "
     "save -> load -> structural equality -> save again (byte identity); behavioural equality on 6 probe inputs for the sub-product with default metric lists and flags; components alone: 625 MetricZeroTPEdgeCaseHandling, "
     "5x4 handlers, matchers, approximators, LabelGroup/LabelMergeGroup/SegmentationClassGroups variants, every enum member; shipped configs by path, by name, twice, after mutating the first loaded object. "
     "non-trivial = at least two fields differ from their defaults; distinct by configuration"
@@ -36,7 +36,7 @@ MATCHERS = (None, ["thr", "IOU", 0.5, False], ["thr", "DSC", 0.3, True], ["thr",
 H_A = {"std": "NAN", "metrics": {"DSC": ["NAN", "ZERO", "ONE", "INF"], "IOU": ["INF", "ONE", "ZERO", "NAN"], "ASSD": ["ZERO", "INF", "NAN", "ONE"], "RVD": ["ONE", "NAN", "INF", "ZERO"], "clDSC": ["NONE", "ZERO", "ONE", "NAN"]}}
 H_B = {"std": "ZERO", "metrics": {"DSC": ["ONE", "INF", "ZERO", "ONE"], "IOU": ["ZERO", "NAN", "ONE", "INF"], "ASSD": ["NAN", "ONE", "INF", "ZERO"], "RVD": ["INF", "ZERO", "NAN", "NONE"], "clDSC": ["ZERO", "ONE", "NAN", "INF"]}}
 HANDLERS = (None, H_A, H_B, "DEFAULT_STD_ONE")
-GROUPS = (None, "plain", "plain+merge", "plain+single")
+GROUPS = (None, "plain", "plain+merge", "plain+single", "named-like-placeholder")
 IMETS = (("DSC", "IOU", "ASSD", "RVD"), ("DSC", "IOU"), ("IOU", "ASSD", "clDSC"))
 GMETS = (("DSC",), ("DSC", "IOU", "RVD"), ())
 DECS = (None, ["IOU", 0.5], ["DSC", 1.0 / 3.0])
@@ -95,6 +95,9 @@ def make_groups(kind):
         return SegmentationClassGroups({"one": LabelGroup([1]), "rest": LabelMergeGroup([2, 3])})
     if kind == "plain+single":
         return SegmentationClassGroups({"a-b": LabelGroup([1, 2]), "Solo": LabelGroup([3], single_instance=True)})
+    if kind == "named-like-placeholder":
+        # a user group that happens to carry the name the library uses for "no groups"
+        return SegmentationClassGroups({"Ungrouped": LabelGroup([1]), "tumor": LabelMergeGroup([2, 3])})
     raise ValueError(kind)
 
 
@@ -359,7 +362,7 @@ def _components(case, acc):
         _component(acc, case, LabelMergeGroup(labels), LabelMergeGroup, f"LabelMergeGroup({labels})")
     _component(acc, case, LabelGroup([4], single_instance=True), LabelGroup, "LabelGroup([4], single)")
     _component(acc, case, LabelMergeGroup([4], single_instance=True), LabelMergeGroup, "LabelMergeGroup([4], single)")
-    for g in ("plain", "plain+merge", "plain+single"):
+    for g in ("plain", "plain+merge", "plain+single", "named-like-placeholder"):
         _component(acc, case, make_groups(g), SegmentationClassGroups, f"SegmentationClassGroups({g})")
     _component(acc, case, SegmentationClassGroups([LabelGroup([1]), LabelMergeGroup([2, 3])]), SegmentationClassGroups, "SegmentationClassGroups(list)")
     for en in (Metric, InputType, CCABackend, EdgeCaseResult, EdgeCaseZeroTP, MetricMode, MetricType):
